@@ -1,0 +1,11 @@
+//go:build verif
+
+// Verification contracts (property C31, addition; comment-only, read by /verif/govc).
+// Re-encoding a record must not change values it does not rewrite: a nil key / value / header value is written as
+// length -1 (null), and ONLY nil is - a present but empty field keeps length 0.
+
+package main
+
+//@ func lfsAppendVarintBytes
+//@   at lfsAppendVarint#1 before assert [C31.null_length_only_for_nil_field] arg1 == -1 && base(b) == 0
+//@   at lfsAppendVarint#2 before assert [C31.present_field_keeps_its_length] arg1 == int32(len(b)) && base(b) != 0
